@@ -11,6 +11,7 @@ PROPS = {
         "lanes": [
             {"lane": "unpack", "quick": 2500, "thorough": 60000},
             {"lane": "unpack-faults", "quick": 8, "thorough": 30},
+            {"lane": "unpack", "thorough": 20000, "uid": 65534},   # the same as an unprivileged user
         ],
         "trusted_base": [STDLIB, FSMODEL],
         "assumptions": ["dst is an absolute clean path whose own components are real directories; links already under dst are tidy and lexically inside (an empty destination satisfies this); no allow-list (with one, the allow-listed places are excluded from the oracle)",
